@@ -1,2 +1,105 @@
-From ZC Require Import Model.Base Model.Register Model.Node Model.Front.
-Example C15_placeholder : True. Proof. exact I. Qed.
+(* C15 - a running instance survives any datagram stream. Statements only.
+   Model/Front.v: AsyncListener.datagram_received (size guard, duplicate guard, DNSIncoming = WireDec.parse, dispatch, deferral of
+   truncated queries) in front of the node LTS (Model/Node.v) and the encoder (WireEnc.packets) behind it; an [ORaise e] in the output
+   of a datagram / timer label is an exception that would leave the handler and reach the event loop.  Tied to the real instance by
+   byte-level label replay incl. the final cache (Corr/Front.v).
+   Vocabulary (Proofs/C15_front.v, C15_svc.v): is_byte b = 0 <= b < 256; wire_label f l = l is a datagram of bytes, or the reassembly
+   timer of an address that has one pending; RegEncodable g = every record of every registered service can be written by the encoder
+   (names <= 253 chars without lone surrogates and with labels <= 63 UTF-8 bytes, 16-bit port/weight/priority, 32-bit TTLs; sufficient
+   field-level condition: svc_fields_encodable); run_ok = a run of datagrams, pending timers and node labels that keep RegEncodable. *)
+From ZC Require Import Model.Base Model.PyRec Model.Dict Model.Cache Model.Ingest Model.Respond Model.Route Model.WireDec Model.WireEnc
+  Model.OutQueue Model.Register Model.Listener Model.Node Model.Front Gen.Const Gen.DnsPure Spec.CacheSpec Spec.AnswerSpec
+  Proofs.C15_enc Proofs.C15_resp Proofs.C15_svc Proofs.C15_front.
+
+(* THE property: along every legitimate run, whatever bytes arrive next (and whichever pending reassembly timer fires), no exception
+   leaves the handler; the invariants (listener bookkeeping, registry, cache, encodability) hold again afterwards; the registry is untouched *)
+Theorem C15_no_exception_escapes : forall ls, run_ok fnode_init ls ->
+  let f := fstate fnode_init ls in
+  (FInv f /\ RegInv (n_reg (f_node f)) /\ Inv (n_cache (f_node f)) /\ RegEncodable (n_reg (f_node f))) /\
+  forall l, wire_label f l ->
+    let f' := fst (fstep f l) in
+    (forall e, ~ In (ORaise e) (snd (fstep f l))) /\
+    FInv f' /\ RegInv (n_reg (f_node f')) /\ Inv (n_cache (f_node f')) /\ RegEncodable (n_reg (f_node f')) /\
+    n_reg (f_node f') = n_reg (f_node f).
+Proof. exact no_exception_escapes. Qed.
+
+(* datagrams over 8966 bytes are ignored: no output, no state change whatsoever; 8966 bytes are still processed *)
+Theorem C15_oversize_ignored : forall f data addr port now tc rq rd,
+  C_MAX_MSG_ABSOLUTE < Z.of_nat (length data) -> fstep f (FDatagram data addr port now tc rq rd) = (f, []).
+Proof. exact oversize_ignored. Qed.
+
+Theorem C15_at_limit_processed : forall f data addr port now tc rq rd, Forall is_byte data ->
+  Z.of_nat (length data) <= C_MAX_MSG_ABSOLUTE -> is_duplicate (f_ls f) data now = false ->
+  ls_data (f_ls (fst (fstep f (FDatagram data addr port now tc rq rd)))) = Some data.
+Proof. exact at_limit_processed. Qed.
+
+(* the decoder lets nothing out for any byte string (C02_total at the frame budget of the model) *)
+Theorem C15_decoder_contained : forall data now, Forall is_byte data -> m_escaped (parse data now None FRAMES) = None.
+Proof. exact decoder_contained. Qed.
+
+(* it keeps working: a datagram or timer never touches the registry, the registrations in progress, the announcement tasks or the
+   done flag - whatever arrives, every registered service is still there to be answered for (what is answered: C03, C11) *)
+Theorem C15_datagrams_touch_only : forall f l, (match l with FNode _ => False | _ => True end) ->
+  let n := f_node f in let n' := f_node (fst (fstep f l)) in
+  n_reg n' = n_reg n /\ n_checks n' = n_checks n /\ n_tasks n' = n_tasks n /\ n_bye n' = n_bye n /\ n_done n' = n_done n.
+Proof. exact datagrams_touch_only. Qed.
+
+(* the listener's deferred-packet bookkeeping never leaves a timer without packets: `packets[0]` cannot fail *)
+Theorem C15_no_index_error : forall f l, FInv f -> timer_ok f l ->
+  In (ORaise IndexError) (snd (fstep f l)) -> exists m, packets m = Raise IndexError.
+Proof. exact no_index_error. Qed.
+
+Theorem C15_listener_invariant : FInv fnode_init /\ forall f l, FInv f -> FInv (fst (fstep f l)).
+Proof. exact (conj FInv_init FInv_step). Qed.
+
+(* the model's silent fallbacks (cache left unchanged when ingestion or purge raises) are never taken along a run *)
+Theorem C15_fallbacks_never_taken : forall ls, run_ok fnode_init ls ->
+  let c := n_cache (f_node (fstate fnode_init ls)) in
+  (forall now answers, exists c', i_final (ingest now answers c) = Ok c' /\ Inv c') /\
+  (forall now, exists c', pg_final (purge now c) = Ok c' /\ Inv c').
+Proof. exact fallbacks_never_taken. Qed.
+
+(* everything the encoder can raise, for any message; what is sent in reply to a query is writable, except that the echo of a
+   question received with invalid UTF-8 may exceed a label - which only happens in unicast replies and is dropped (the C15 repair) *)
+Theorem C15_encoder_raises_only : forall m e, packets m = Raise e ->
+  In e [NamePartTooLong; UnicodeError; IndexError; StructError; ValueError; OtherError].
+Proof. exact packets_raises_only. Qed.
+
+Theorem C15_replies_encodable : forall n now msgs id addr port rq rd, RegInv (n_reg n) -> RegEncodable (n_reg n) -> QueryOk msgs id ->
+  (forall t dest m, In (OSend t dest m) (snd (nstep n (LQuery now msgs id addr port rq rd))) ->
+     match dest with None => exists ps, packets m = Ok ps
+     | Some _ => (exists ps, packets m = Ok ps) \/ packets m = Raise NamePartTooLong end) /\
+  (forall e, ~ In (ORaise e) (send_gate (snd (nstep n (LQuery now msgs id addr port rq rd))))).
+Proof. exact (proj2 (proj2 encoder_contained)). Qed.
+
+Theorem C15_encodable_services : forall s, svc_fields_ok s -> Forall rec_encodable (svc_records s).
+Proof. exact svc_fields_encodable. Qed.
+
+(* the hypotheses are needed and satisfiable *)
+Example C15_example_run :
+  let ls := [ex_register ex_host; FDatagram ex_query [49] 5353 1000 450 20 20] in
+  run_ok fnode_init ls /\
+  (exists m, snd (fstep (fstate fnode_init [ex_register ex_host]) (FDatagram ex_query [49] 5353 1000 450 20 20)) = [OSend 1000 None m]) /\
+  (exists m1 m2, snd (fstep (fstate fnode_init [ex_register ex_host]) (FDatagram ex_query [49] 1234 1000 450 20 20))
+             = [OSend 1000 (Some ([49], 1234)) m1; OSend 1000 None m2]).
+Proof. exact ex_run. Qed.
+
+Example C15_unencodable_service_refuted :
+  let bad_host := repeat 65533 22 ++ [46;108;111;99;97;108;46] in
+  let f := fstate fnode_init [ex_register bad_host] in
+  snd (fstep fnode_init (ex_register bad_host)) = [OChecked; ORegistered [ex_name]] /\
+  snd (fstep f (FDatagram ex_query [49] 5353 1000 450 20 20)) = [ORaise NamePartTooLong].
+Proof. exact ex_unencodable_service_escapes. Qed.
+
+Example C15_bad_question_dropped :
+  let f := fstate fnode_init [ex_register ex_host] in snd (fstep f (FDatagram ex_query_bad [49] 1234 1000 450 20 20)) = [].
+Proof. exact ex_bad_question_dropped. Qed.
+
+Example C15_timer_side_condition : snd (fstep fnode_init (FTimer [49] 5353 1000 20 20)) = [ORaise IndexError].
+Proof. exact timer_not_pending_raises. Qed.
+
+Print Assumptions C15_no_exception_escapes. Print Assumptions C15_oversize_ignored. Print Assumptions C15_at_limit_processed.
+Print Assumptions C15_decoder_contained. Print Assumptions C15_datagrams_touch_only. Print Assumptions C15_no_index_error.
+Print Assumptions C15_listener_invariant. Print Assumptions C15_fallbacks_never_taken. Print Assumptions C15_encoder_raises_only.
+Print Assumptions C15_replies_encodable. Print Assumptions C15_encodable_services. Print Assumptions C15_example_run.
+Print Assumptions C15_unencodable_service_refuted. Print Assumptions C15_bad_question_dropped. Print Assumptions C15_timer_side_condition.
